@@ -1,14 +1,16 @@
 (* Extraction of the executable model for the correspondence check.
    ExtrOcamlBasic only: N, Z, positive, nat stay the extracted inductives. *)
 From Coq Require Import Extraction ExtrOcamlBasic.
-From RL Require Import UData Utf8 History HistFile.
+From RL Require Import UData Uax29 Utf8 History HistFile Direct.
 
 Extraction Blacklist List String Int.
 
 Extraction "model.ml"
   (* base *)
-  Build_UData blen bsplit encode decode
+  Build_UData blen bsplit encode decode useg
   (* history *)
   hist_new h_run h_step
   (* history file *)
-  w_run w_init save_bytes load_from f_new_cfg f_entries.
+  w_run w_init save_bytes load_from f_new_cfg f_entries
+  (* direct input *)
+  direct_all bracket_validator apply_bs_impl apply_bs.
